@@ -45,7 +45,8 @@ def prototype_part(v, res):
 def run(tier, seed):
     v = common.Verdict("C19", tier, seed)
     common.bind_repo()
-    gens = [rp.GEN_OFF, None]
+    # (third way of writing the declaration: every class of the module is given ONE and the same options dictionary object)
+    gens = [rp.GEN_OFF, None, {"share_opts": True, "vectorize": True}]
     res = vp.exhaustive_part(v, "U_C19", ["Inv_C02_Layout"], gens, OWNED)
     prototype_part(v, res)
     v.cov["exhaustive"] = True
